@@ -1,7 +1,7 @@
 SPECIFICATION Spec
 CONSTANTS
   OffsMod = 65536
-  Codes <- CodesAll
+  Codes <- CodesAll0
   Kinds = {"rpl"}
   Starts = {0, 3}
   CutModes = {0}
